@@ -16,15 +16,15 @@ expressions emitted in flat and in-memory position on the import and the export 
 * `positions_covered`: every list contains a flat-position and an in-memory expression;
 * `all_correct`: every expression of every list computes the canonical ABI mapping
   (`Entry.Correct`: all 2^8 / 2^16 / 2^32 / 2^64 operand bit patterns, operand and result typed as
-  the backend types them) — except the three lists in `knownDefects`, for which
-  `Props/C14/{MoonBit,Rust}.lean` prove the negation of the full statement with a concrete witness
+  the backend types them) — except the list in `knownDefects` (Rust `BoolFromI32`: non-canonical input only), for which
+  `Props/C14/Rust.lean` proves the negation of the full statement with a concrete witness
   (`…_full_false`) and what does hold (`…_partial`). -/
 namespace Witverif.Props.C14
 open Witverif.Scalar Witverif.Scalar.Spec Witverif.Generated
 set_option maxRecDepth 100000
 
 /-- (backend, instruction) pairs whose full statement is false of the pinned tree -/
-def knownDefects : List String := ["moonbit_S8FromI32", "moonbit_S16FromI32", "rust_BoolFromI32"]
+def knownDefects : List String := ["rust_BoolFromI32"]
 
 /-- the generated table consists of exactly the expected lists, in order -/
 theorem table_shape : ScalarExprs.table.map (·.1) = ["rust_I32FromBool", "rust_BoolFromI32", "rust_I32FromS8", "rust_S8FromI32", "rust_I32FromU8", "rust_U8FromI32", "rust_I32FromS16", "rust_S16FromI32", "rust_I32FromU16", "rust_U16FromI32", "rust_I32FromS32", "rust_S32FromI32", "rust_I32FromU32", "rust_U32FromI32", "rust_I64FromS64", "rust_S64FromI64", "rust_I64FromU64", "rust_U64FromI64", "rust_CoreF32FromF32", "rust_F32FromCoreF32", "rust_CoreF64FromF64", "rust_F64FromCoreF64", "rust_I32FromChar", "rust_CharFromI32", "c_I32FromBool", "c_BoolFromI32", "c_I32FromS8", "c_S8FromI32", "c_I32FromU8", "c_U8FromI32", "c_I32FromS16", "c_S16FromI32", "c_I32FromU16", "c_U16FromI32", "c_I32FromS32", "c_S32FromI32", "c_I32FromU32", "c_U32FromI32", "c_I64FromS64", "c_S64FromI64", "c_I64FromU64", "c_U64FromI64", "c_CoreF32FromF32", "c_F32FromCoreF32", "c_CoreF64FromF64", "c_F64FromCoreF64", "c_I32FromChar", "c_CharFromI32", "cpp_I32FromBool", "cpp_BoolFromI32", "cpp_I32FromS8", "cpp_S8FromI32", "cpp_I32FromU8", "cpp_U8FromI32", "cpp_I32FromS16", "cpp_S16FromI32", "cpp_I32FromU16", "cpp_U16FromI32", "cpp_I32FromS32", "cpp_S32FromI32", "cpp_I32FromU32", "cpp_U32FromI32", "cpp_I64FromS64", "cpp_S64FromI64", "cpp_I64FromU64", "cpp_U64FromI64", "cpp_CoreF32FromF32", "cpp_F32FromCoreF32", "cpp_CoreF64FromF64", "cpp_F64FromCoreF64", "cpp_I32FromChar", "cpp_CharFromI32", "csharp_I32FromBool", "csharp_BoolFromI32", "csharp_I32FromS8", "csharp_S8FromI32", "csharp_I32FromU8", "csharp_U8FromI32", "csharp_I32FromS16", "csharp_S16FromI32", "csharp_I32FromU16", "csharp_U16FromI32", "csharp_I32FromS32", "csharp_S32FromI32", "csharp_I32FromU32", "csharp_U32FromI32", "csharp_I64FromS64", "csharp_S64FromI64", "csharp_I64FromU64", "csharp_U64FromI64", "csharp_CoreF32FromF32", "csharp_F32FromCoreF32", "csharp_CoreF64FromF64", "csharp_F64FromCoreF64", "csharp_I32FromChar", "csharp_CharFromI32", "go_I32FromBool", "go_BoolFromI32", "go_I32FromS8", "go_S8FromI32", "go_I32FromU8", "go_U8FromI32", "go_I32FromS16", "go_S16FromI32", "go_I32FromU16", "go_U16FromI32", "go_I32FromS32", "go_S32FromI32", "go_I32FromU32", "go_U32FromI32", "go_I64FromS64", "go_S64FromI64", "go_I64FromU64", "go_U64FromI64", "go_CoreF32FromF32", "go_F32FromCoreF32", "go_CoreF64FromF64", "go_F64FromCoreF64", "go_I32FromChar", "go_CharFromI32", "moonbit_I32FromBool", "moonbit_BoolFromI32", "moonbit_I32FromS8", "moonbit_S8FromI32", "moonbit_I32FromU8", "moonbit_U8FromI32", "moonbit_I32FromS16", "moonbit_S16FromI32", "moonbit_I32FromU16", "moonbit_U16FromI32", "moonbit_I32FromS32", "moonbit_S32FromI32", "moonbit_I32FromU32", "moonbit_U32FromI32", "moonbit_I64FromS64", "moonbit_S64FromI64", "moonbit_I64FromU64", "moonbit_U64FromI64", "moonbit_CoreF32FromF32", "moonbit_F32FromCoreF32", "moonbit_CoreF64FromF64", "moonbit_F64FromCoreF64", "moonbit_I32FromChar", "moonbit_CharFromI32", "d_I32FromBool", "d_BoolFromI32", "d_I32FromS8", "d_S8FromI32", "d_I32FromU8", "d_U8FromI32", "d_I32FromS16", "d_S16FromI32", "d_I32FromU16", "d_U16FromI32", "d_I32FromS32", "d_S32FromI32", "d_I32FromU32", "d_U32FromI32", "d_I64FromS64", "d_S64FromI64", "d_I64FromU64", "d_U64FromI64", "d_CoreF32FromF32", "d_F32FromCoreF32", "d_CoreF64FromF64", "d_F64FromCoreF64", "d_I32FromChar", "d_CharFromI32"] := by
@@ -36,7 +36,7 @@ theorem positions_covered : ∀ p ∈ ScalarExprs.table,
   decide +kernel
 
 /-- every extracted conversion expression of every backend is the canonical ABI mapping, for all
-operand values — except in the three known-defect lists -/
+operand values — except in the known-defect list -/
 theorem all_correct : ∀ p ∈ ScalarExprs.table, p.1 ∉ knownDefects → ∀ e ∈ p.2, e.Correct := by
   simp only [ScalarExprs.table, List.forall_mem_cons, List.not_mem_nil, false_imp_iff, implies_true, and_true]
   exact ⟨fun _ => Rust.rust_I32FromBool,
@@ -162,11 +162,11 @@ theorem all_correct : ∀ p ∈ ScalarExprs.table, p.1 ∉ knownDefects → ∀ 
     fun _ => MoonBit.moonbit_I32FromBool,
     fun _ => MoonBit.moonbit_BoolFromI32,
     fun _ => MoonBit.moonbit_I32FromS8,
-    fun h => absurd (by decide) h,
+    fun _ => MoonBit.moonbit_S8FromI32,
     fun _ => MoonBit.moonbit_I32FromU8,
     fun _ => MoonBit.moonbit_U8FromI32,
     fun _ => MoonBit.moonbit_I32FromS16,
-    fun h => absurd (by decide) h,
+    fun _ => MoonBit.moonbit_S16FromI32,
     fun _ => MoonBit.moonbit_I32FromU16,
     fun _ => MoonBit.moonbit_U16FromI32,
     fun _ => MoonBit.moonbit_I32FromS32,
